@@ -16,17 +16,19 @@ Fixpoint place_coords_aux (n : nat) (xs : list nat) (rv : bool) : list (nat * na
   end.
 Definition place_coords (n : nat) : list (nat * nat) := place_coords_aux n (place_xs n) true.
 
-(* bit idx of the stream: bytes[idx / 8] & (1 << (7 - idx % 8)) *)
-Definition stream_bit (bytes : list N) (idx : N) : bool :=
-  N.testbit (getN bytes (idx / 8)) (7 - idx mod 8).
+(* the stream as bits, most significant bit of each byte first: bit idx is bytes[idx / 8] & (1 << (7 - idx % 8)) *)
+Fixpoint byte_bits (w : nat) (x : N) : list bool :=
+  match w with O => [] | S w' => N.testbit x (N.of_nat w') :: byte_bits w' x end.
+Definition stream_bits (bytes : list N) : list bool := flat_map (byte_bits 8) bytes.
 
-Definition place_step (bytes : list N) (st : qmat * N) (p : nat * nat) : qmat * N :=
-  let '(m, idx) := st in
+(* state: matrix, number of bits consumed (idx), remaining bits. The walk consumes the stream front to back. *)
+Definition place_step (st : qmat * N * list bool) (p : nat * nat) : qmat * N * list bool :=
+  let '(m, idx, bits) := st in
   let x := qget m (fst p) (snd p) in
-  if is_data x then (qset m (fst p) (snd p) (cell_set x (stream_bit bytes idx)), (idx + 1)%N) else (m, idx).
+  if is_data x then (qset m (fst p) (snd p) (cell_set x (hd false bits)), (idx + 1)%N, tl bits) else st.
 
 Definition place_data (n : nat) (m : qmat) (bytes : list N) : qmat * N :=
-  fold_left (place_step bytes) (place_coords n) (m, 0%N).
+  fst (fold_left place_step (place_coords n) (m, 0%N, stream_bits bytes)).
 
 Definition masks_order : list nat := map N.to_nat masks_order_tbl.
 
